@@ -38,6 +38,7 @@ OPS = {
     'tcrf_any': 'internal::try_catch_return_false< void, R<0> >',
     'tcrn_pe': 'internal::try_catch_raise_nested< parse_error, R<0> >',
     'tcrn_any': 'internal::try_catch_raise_nested< void, R<0> >',
+    'tcrnm_pe': 'internal::try_catch_raise_nested< parse_error, RM<0> >',     # guarded rule with its own error_message
 }
 
 
@@ -128,13 +129,13 @@ def spec_for(op, a, m):
         return rule_stub(spec), post
     if op.startswith('tcrn'):
         spec = {0: dict(A=A_, next_ok='T_NONE', next_fail='T_NONE')}
-        match = {'tcrn_pe': 'vf_isa(g_exc_type, %s)' % PE, 'tcrn_any': '1'}[op]
+        match = {'tcrn_pe': 'vf_isa(g_exc_type, %s)' % PE, 'tcrn_any': '1', 'tcrnm_pe': 'vf_isa(g_exc_type, %s)' % PE}[op]
         post = [E('(STUB_RAISED && %s) ==> (vf_exc.pending && vf_exc.type == %s && vf_exc.obj != g_exc_obj && vf_exc.nested_obj == g_exc_obj'
-                  ' && vf_exc.site == $SITE{normal<vf::R<0> >::raise_nested<} && EXC_POS_IS_ENTRY)' % (match, PE),
+                  ' && vf_exc.site == $SITE{normal<vf::%s<0> >::raise_nested<} && EXC_POS_IS_ENTRY)' % (match, PE, 'RM' if op == 'tcrnm_pe' else 'R'),
                   'RAISE-NESTED-AT-START-OF-ATTEMPT-KEEPS-ORIGINAL-NESTED', P),
                 E('(STUB_RAISED && !(%s)) ==> (vf_exc.pending && vf_exc.obj == g_exc_obj && vf_exc.type == g_exc_type)' % match, 'TRYCATCH-PASSES-OTHER-EXCEPTIONS-UNCHANGED', P),
                 E('!STUB_RAISED ==> (!vf_exc.pending && g_called[0] && RET == g_ok[0])', 'TRYCATCH-TRANSPARENT-WITHOUT-EXCEPTION', P)]
-        return rule_stub(spec), post
+        return (rule_stub_rm(spec) if op == 'tcrnm_pe' else rule_stub(spec)), post
     raise KeyError(op)
 
 
